@@ -88,6 +88,9 @@ def run_check(pid, tier, replay=None):
     stage_notes = []
     viol_hist = {}
     try:
+        if not replay:
+            import shutil
+            shutil.rmtree(os.path.join(core.WORK, "replays", pid), ignore_errors=True)
         if replay:
             with open(replay) as f:
                 payload = json.load(f)
